@@ -3,7 +3,7 @@
 (* Event families about the fixed-point search (C08) and the nine          *)
 (* dedicated-processor analyses (C06, C19).                                *)
 (***************************************************************************)
-EXTENDS Analyses, Supply
+EXTENDS Analyses, Supply, Ros2Analyses
 
 \* ---- C08 -------------------------------------------------------------------
 \* supplies incl. the user-defined staircase (pattern of 0/1 service per tick, repeated)
@@ -33,6 +33,15 @@ MaxRtFails(e) ==
 RtaFails(e) ==
     IF "panic" \in DOMAIN e.out \/ "hang" \in DOMAIN e.out THEN {"returns"}
     ELSE LET v == RtaDef(e.in)
+         IN IF v = NONE
+            THEN (IF IsErr(e.out) THEN {} ELSE {"err_iff_no_fixed_point"})
+            ELSE (IF IsOk(e.out) THEN (IF e.out.ok = v THEN {} ELSE {"equals_exhaustive_evaluation"})
+                  ELSE {"err_iff_no_fixed_point"})
+
+\* ---- C07 -------------------------------------------------------------------
+Ros2Fails(e) ==
+    IF "panic" \in DOMAIN e.out \/ "hang" \in DOMAIN e.out THEN {"returns"}
+    ELSE LET v == Ros2Def(e.op, e.in)
          IN IF v = NONE
             THEN (IF IsErr(e.out) THEN {} ELSE {"err_iff_no_fixed_point"})
             ELSE (IF IsOk(e.out) THEN (IF e.out.ok = v THEN {} ELSE {"equals_exhaustive_evaluation"})
